@@ -25,7 +25,9 @@ class Shape(object):
         self.header = header
         self.fmt = fmt
         self.recording = recording
-        self.width = 3
+        self.width = 8 if recording else 3
+        if recording:
+            from harness import recording as _recording  # noqa: F401 -- defines the plugin classes before any Cid exists
 
     def cid_rows(self):
         rows = [["D", "Format", self.fmt]]
@@ -33,10 +35,12 @@ class Shape(object):
             rows.append(["D", "Header", str(self.header)])
         if self.fmt == "fixed":
             rows.append(["D", "Line delimiter", "lf"])
+        if self.recording:
+            rows.append(["D", "Allowed characters", "32...125"])  # "~" (126) is not allowed
         length = str(self.width) if self.fmt == "fixed" else ""
         for index in range(1, self.nfields + 1):
             if self.recording:
-                rows.append(["F", "f%d" % index, "", "X", length if self.fmt == "fixed" else "...2", "Recording", str(index)])
+                rows.append(["F", "f%d" % index, "", "X", length if self.fmt == "fixed" else "...7", "Recording", str(index)])
             else:
                 rows.append(["F", "f%d" % index, "", "", length, "Integer", "0...99"])
         rows.append(["F", "rid", "", "", length, "Text", ""])
@@ -62,7 +66,18 @@ class Shape(object):
         cells = []
         for index, cls in enumerate(row["c"]):
             value = row["v"][index]
-            if cls == "ok":
+            if self.recording:
+                if cls == "ok":
+                    cells.append("%d.%d" % (value, number))
+                elif cls == "rej":
+                    cells.append("r%d.%d" % (value, number))
+                elif cls == "emp":
+                    cells.append("")
+                elif index % 2 == 0 and self.fmt != "fixed":
+                    cells.append("%d.long.%d" % (value, number))  # violates the declared length
+                else:
+                    cells.append("%d~.%d" % (value, number))  # holds a character that is not allowed
+            elif cls == "ok":
                 cells.append(str(value))
             elif cls == "rej":
                 cells.append("x%d" % value if not self.recording else "r%d" % value)
@@ -72,11 +87,12 @@ class Shape(object):
                 cells.append("999999")  # violates the declared length
             else:
                 raise core.MachineryError("cell class %r" % cls)
+        rid = ("0.%d" if self.recording else "%d") % number
         if row["w"] == "short":
-            return cells[:self.nfields - 1] + ["%d" % number]
+            return cells[:self.nfields - 1] + [rid]
         if row["w"] == "long":
-            return cells[:self.nfields] + ["%d" % number, "extra"]
-        return cells + ["%d" % number]
+            return cells[:self.nfields] + [rid, "extra"]
+        return cells + [rid]
 
     def data_text(self, table):
         lines = []
@@ -173,12 +189,15 @@ def item_of(shape, item, messages=None):
         return ["err", e["line"], e["cell"], e["cls"], e["by"], e["see"]]
     if isinstance(item, Exception):
         return ["err", 0, 0, "other:" + type(item).__name__, 0, 0]
+    def number(cell):
+        return int(cell.strip().rsplit(".", 1)[-1])
+
     try:
-        return ["row", int(item[-1])]
-    except (ValueError, IndexError, TypeError):
+        return ["row", number(item[-1])]
+    except (ValueError, IndexError, TypeError, AttributeError):
         # long rows are never yielded as rows when validated; unvalidated ones carry the id one before the end
         try:
-            return ["row", int(item[shape.nfields])]
+            return ["row", number(item[shape.nfields])]
         except Exception:  # noqa
             return ["row", -1]
 
@@ -198,6 +217,7 @@ def run_read(shape, cid, run, keep=None):
     messages = []
     exc = dict(NO_ERR)
     acc = rej = None
+    call_log = _start_call_log(shape)
     if api == "validate":
         try:
             cutplace.validate(cid, source, validate_until=limit)
@@ -248,7 +268,8 @@ def run_read(shape, cid, run, keep=None):
             except Exception as error:  # noqa
                 exc = project_error(shape, error)
             acc, rej = reader.accepted_rows_count, reader.rejected_rows_count
-    return {"out": out, "exc": exc, "acc": acc, "rej": rej, "text": text, "messages": messages}
+    return {"out": out, "exc": exc, "acc": acc, "rej": rej, "text": text, "messages": messages,
+            "calls": _stop_call_log(call_log)}
 
 
 def expected_line(shape, row, number):
@@ -267,6 +288,7 @@ def run_write(shape, cid, run, keep=None):
     acc = rej = 0
     stream_ok = True
     expected_stream = ""
+    call_log = _start_call_log(shape)
     writer = validio.Writer(cid, target)
     if keep is not None:
         keep.append(writer)
@@ -293,6 +315,7 @@ def run_write(shape, cid, run, keep=None):
             writer.close()
         except Exception as error:  # noqa
             exc = project_error(shape, error)
+    calls = _stop_call_log(call_log)
     # C14: the produced output validates again under the same CID and returns the written values (modulo padding)
     readback = []
     try:
@@ -306,17 +329,43 @@ def run_write(shape, cid, run, keep=None):
             readback.append("reading the output back gives %s but %s was written" % (got, expected_back))
     except Exception as error:  # noqa
         e = project_error(shape, error)
-        if not (e["cls"] == "CheckError" and e["line"] == 0 and len([1 for kind, *_ in out if kind == "row"]) >= shape.header):
+        if not (e["cls"] == "CheckError" and e["line"] == 0):
             readback.append("reading the output back fails: %s: %s" % (type(error).__name__, error))
         elif run["end"] == "close" and exc["cls"] != "CheckError":
             readback.append("reading the output back fails at the end (%s) although closing the writer did not" % error)
     return {"out": out, "exc": exc, "acc": acc, "rej": rej, "stream_ok": stream_ok, "written": written,
-            "expected_stream": expected_stream, "messages": readback}
+            "expected_stream": expected_stream, "messages": readback, "calls": calls}
 
 
 def cutplace_rows(cid, source):
     import cutplace
     return cutplace.rows(cid, source, on_error="yield")
+
+
+def _start_call_log(shape):
+    if not shape.recording:
+        return None
+    from harness import recording
+    del recording.LOG[:]
+    return recording.LOG
+
+
+def _stop_call_log(call_log):
+    if call_log is None:
+        return None
+    return [list(entry) for entry in call_log]
+
+
+def normalise_calls(calls, nchecks):
+    """
+    C20, weaker reading of "reset once before the first row": the checks may be reset more than once as long as
+    every reset precedes every other call -- repeated leading blocks of resets are folded into one.
+    """
+    calls = [list(entry) for entry in calls]
+    block = [["reset", c] for c in range(1, nchecks + 1)]
+    while nchecks and calls[:nchecks] == block and calls[nchecks:2 * nchecks] == block:
+        calls = calls[nchecks:]
+    return calls
 
 
 def normalise_expected(shape, run, expected):
@@ -329,7 +378,7 @@ def normalise_expected(shape, run, expected):
         for item in out:
             if item[0] == "err":
                 item[2] = 0
-    result = {"out": out, "exc": exc, "acc": expected["acc"], "rej": expected["rej"]}
+    result = {"out": out, "exc": exc, "acc": expected["acc"], "rej": expected["rej"], "calls": expected.get("calls")}
     return result
 
 
@@ -342,6 +391,13 @@ def differences(run, expected, observed, compare_counters):
     if observed_exc != expected_exc:
         problems.append("escaping error is %s but must be %s" % (observed["exc"], expected_exc))
     problems.extend(observed.get("messages", []))
+    if observed.get("calls") is not None and expected.get("calls") is not None:
+        nchecks = len([1 for entry in expected["calls"] if entry[0] == "cleanup"]) or len(
+            [1 for entry in expected["calls"] if entry[0] == "reset"])
+        got = normalise_calls(observed["calls"], nchecks)
+        want = normalise_calls(expected["calls"], nchecks)
+        if got != want:
+            problems.append("calls are %s but the documented protocol gives %s" % (got, want))
     if compare_counters and observed.get("acc") is not None:
         if (observed["acc"], observed["rej"]) != (expected["acc"], expected["rej"]):
             problems.append("counters accepted/rejected are %s/%s but must be %s/%s" % (
